@@ -349,3 +349,13 @@ REGISTRY["C19"] = dict(engines=[engine_kcompose.run], rule=("K-compose cases: ra
 
 REGISTRY["C15"]["engines"] = [engine_khist.run, engine_kcompose.run]
 REGISTRY["C15"]["rule"] = HIST_RULE + " || compose() derivations: the original DAG's value and node table before and after composing and running the composed DAG (K-compose)"
+
+from . import engine_kthread  # noqa: E402
+
+REGISTRY["C16"] = dict(engines=[engine_kthread.run_threads], rule=("K-thread cases: 2-3 real threads stepped by a turn-taking barrier through random interleavings of: build a DAG (pausing inside the describing function between recorded calls), "
+                       "call a finished DAG, call a decorated function outside any DAG; per thread the observations (recorded / executed / built table) are compared with Threads.v run on the same interleaving = what the thread observes alone; "
+                       "plus 4 threads x 3 calls of one shared DAG with distinct arguments compared with the plain reference; distinct = hash of (programs, schedule); non-trivial = schedule of >= 4 actions"),
+                       assumptions=["Python-level actions are atomic (GIL); races inside CPython dict operations are outside the model", "setup nodes are run before a DAG is shared between threads (documented requirement)"])
+REGISTRY["C17"] = dict(engines=[engine_kthread.run_async, engine_ksched], rule=("K-async: every generated describing function built in both flavours: value, executed node multiset; gathered concurrent awaits with distinct arguments vs the plain reference; "
+                       "event-loop liveness: an async-thread node that completes only after a sibling coroutine of the same loop has run || " + SCHED_RULE),
+                       assumptions=["the event loop itself (asyncio) is not modelled; liveness is monitored"])
